@@ -30,28 +30,30 @@ from harness import framework, tlc, c07, c07ref
 
 
 class Batch(object):
-    """records of one source, with what Python must remember about each (never sent to TLC)"""
+    """records (sources G, T, W), with what Python must remember about each (never sent to TLC)"""
 
     def __init__(self, name):
         self.name = name
         self.records = []
         self.side = {}
 
-    def add(self, mode, b, live, rl, rd, a, tl, extra=None):
+    def add(self, src, mode, b, live, rl, rd, a, tl, extra=None):
         t = len(self.records)
         self.records.append(c07.record(t, mode, b, live, rl, rd, a, tl))
-        self.side[t] = (mode, b, a, rl, rd, extra)
+        self.side[t] = (src, mode, b, a, rl, rd, extra)
         return t
 
 
-def settle(ctx, batch, verdicts, vendored):
+def settle(ctx, batch, verdicts):
     """turn TLC's verdicts into the check's bookkeeping"""
-    nj = ndj = nout = nnone = 0
+    ndj = nout = 0
+    nj = {}
+    nnone = {}
     excs = 0
     bindfail = []
     for r in batch.records:
         t = r["t"]
-        mode, b, a, rl, rd, extra = batch.side[t]
+        src, mode, b, a, rl, rd, extra = batch.side[t]
         v = verdicts.get(t)
         if a is not None and a["exc"]:
             excs += 1
@@ -60,17 +62,17 @@ def settle(ctx, batch, verdicts, vendored):
                 ctx.extra["amoco_exceptions_examples"].append({"mode": mode, "bytes": b.hex(), "exc": a["exc"][:120]})
         if v is None:       # plain: in the specification's domain, binding ok, property ok, no branch judged
             if r["al"] >= 0:
-                nj += 1
+                nj[src] = nj.get(src, 0) + 1
                 ctx.case(key=(mode, a["fmt"], a["al"]))
             continue
         if v["bind"] != "ok":
-            bindfail.append((v, mode, b, rl, rd))
+            bindfail.append((v, mode, b, rl, rd, src))
         if v["dom"] == "out":
             nout += 1
         elif v["dom"] == "none":
-            nnone += 1
+            nnone[src] = nnone.get(src, 0) + 1
         if v["judged"]:
-            nj += 1
+            nj[src] = nj.get(src, 0) + 1
             ctx.case(key=(mode, a["fmt"], a["al"]))
         if v["dj"]:
             ndj += 1
@@ -87,35 +89,41 @@ def settle(ctx, batch, verdicts, vendored):
                        exp if r["live"] == 1 else "(not consulted)",
                        (" disp=%#x" % rd) if rd is not None else "",
                        "length %s disp limbs %s" % (v["sl"], v["sd"]) if v["sl"] >= 0 else v["st"]))
-            ctx.fail(key, what, {"source": batch.name, "mode": mode, "bytes": b.hex(), "ref_len": rl,
+            ctx.extra.setdefault("property_failures_by_key", {})
+            ctx.extra["property_failures_by_key"][key] = ctx.extra["property_failures_by_key"].get(key, 0) + 1
+            ctx.fail(key, what, {"source": src, "mode": mode, "bytes": b.hex(), "ref_len": rl,
                                  "ref_disp": rd, "live": r["live"], "tl": r["tl"], "amoco": a, "verdict": v})
-    ctx.count("judged_" + batch.name, nj)
+    for src, n in nj.items():
+        ctx.count("judged_" + src, n)
+        ctx.trace(n)
+    for src, n in nnone.items():
+        ctx.count("no_expected_value_" + src, n)
     ctx.count("branch_displacements_judged", ndj)
     ctx.count("outside_spec_domain_but_references_agree", nout)
-    ctx.count("outside_property_" + batch.name, nnone)
     ctx.count("amoco_exceptions_observed", excs)
-    ctx.trace(nj)
     if bindfail:
-        v, mode, b, rl, rd = bindfail[0]
-        msg = ("%d record(s) of %s: specification and references differ (%s): mode %s bytes %s references len %s disp %s, "
-               "X86Len %s len %s disp %s" % (len(bindfail), batch.name, v["bind"], mode, b.hex(), rl, rd, v["st"], v["sl"], v["sd"]))
-        if vendored or any(x[0]["bind"] == "Template" for x in bindfail):
+        v, mode, b, rl, rd, src = bindfail[0]
+        msg = ("%d record(s): specification and references differ (%s, source %s): mode %s bytes %s references len %s disp %s, "
+               "X86Len %s len %s disp %s" % (len(bindfail), v["bind"], src, mode, b.hex(), rl, rd, v["st"], v["sl"], v["sd"]))
+        # the vendored entries are static: X86Len must reproduce every one of them (T-ref); a template that
+        # TLC's own concrete decoder contradicts is a broken generator
+        if any(x[5] in ("T", "Wv") or x[0]["bind"] == "Template" for x in bindfail):
             raise tlc.MachineryError("reference binding broken: " + msg)
         for x in bindfail:
             ctx.drift("model binding: X86Len disagrees with the live references on a fresh string (%s)" % x[0]["bind"])
         ctx.extra.setdefault("binding_mismatch_examples", []).append(msg)
 
 
-def run_judge(ctx, batch, vendored, nshards=None):
+def run_judge(ctx, batch, nshards=None):
     verdicts, results = c07.judge(batch.records, batch.name, nshards)
     for res in results:
         ctx.add_tlc(res, "T:X86LenTrace(%s)" % batch.name)
-    settle(ctx, batch, verdicts, vendored)
+    settle(ctx, batch, verdicts)
 
 
 def model_checks(ctx, quick):
     cfgs = ["X86LenMC.cfg"] if quick else ["X86LenMC.cfg", "X86LenMC_thorough.cfg"]
-    jobs = [(c, False) for c in cfgs] + [("X86LenMC_dev%d.cfg" % k, True) for k in (1, 2, 3)]
+    jobs = [(c, False) for c in cfgs] + [("X86LenMC_dev%d.cfg" % k, True) for k in ((1 + ctx.seed % 3,) if quick else (1, 2, 3))]
 
     def one(job):
         cfg, dev = job
@@ -190,12 +198,19 @@ def run(ctx):
     if ctx.replay:
         return replay(ctx, live)
     walls = {}
-    t0 = [time.time()]
+    cpus = {}
+
+    def cpu_now():
+        x = os.times()
+        return x.user + x.system + x.children_user + x.children_system
+    t0 = [time.time(), cpu_now()]
 
     def lap(name):
         walls[name] = round(time.time() - t0[0], 1)
-        t0[0] = time.time()
+        cpus[name] = round(cpu_now() - t0[1], 1)
+        t0[0], t0[1] = time.time(), cpu_now()
         ctx.note("stage_wall_s", dict(walls))
+        ctx.note("stage_cpu_s", dict(cpus))
     # ---------------------------------------------------------------- M
     if os.environ.get("C07_DEBUG_SKIP_M", "") != "1":      # development aid only
         model_checks(ctx, quick)
@@ -267,6 +282,8 @@ def run(ctx):
         # ------------------------------------------------------------ amoco
         items = [(m, b) for (m, b, tl, idx) in gen]
         gdec = [a for part in pool.map(c07.decode_chunk, c07.chunks(items, 64)) for a in part]
+        if quick:       # quick: a seeded 40 % of the vendored table (thorough: all of it)
+            table = srng.sample(table, (len(table) * 2) // 5)
         items = [(m, b) for (m, b, l, d, src) in table]
         tdec = [a for part in pool.map(c07.decode_chunk, c07.chunks(items, 64)) for a in part]
         allsw = sweeps + fresh
@@ -274,32 +291,32 @@ def run(ctx):
         sdec = [st for part in pool.map(c07.sweep_chunk, c07.chunks(sitems, 64)) for st in part]
     lap("amoco decode")
     # ---------------------------------------------------------------- records
-    bg = Batch("G")
+    bg = Batch("all")
+    bt = bw = bg
     nrefrej = 0
     for k, (m, b, tl, idx) in enumerate(gen):
         if live:
             r = grefs[k]
             if c07ref.agreed(r):
-                bg.add(m, b, 1, r["lo"], r["do"], gdec[k], tl, idx)
+                bg.add("G", m, b, 1, r["lo"], r["do"], gdec[k], tl, idx)
             else:
                 nrefrej += 1
-                bg.add(m, b, 1, -1, None, gdec[k], tl, idx)
+                bg.add("G", m, b, 1, -1, None, gdec[k], tl, idx)
         else:
-            bg.add(m, b, 0, -1, None, gdec[k], tl, idx)
+            bg.add("G", m, b, 0, -1, None, gdec[k], tl, idx)
     ctx.count("generated_strings", len(gen))
     ctx.count("generated_strings_rejected_by_live_references", nrefrej)
-    bt = Batch("T")
     for k, (m, b, l, d, src) in enumerate(table):
-        bt.add(m, b, 1, l, d, tdec[k], -1)
+        bt.add("T", m, b, 1, l, d, tdec[k], -1)
     ctx.count("vendored_table_entries", len(table))
-    bw = Batch("W")
     nwalk = 0
     longest = 0
     for s, steps in zip(allsw, sdec):
         nwalk += 1
         longest = max(longest, len(steps))
         for (o, a) in steps:
-            bw.add(s["m"], s["buf"][o:o + 15], 1, s["ref"][o], s["d"].get(o), a, -1, (s["kind"], o))
+            bw.add("Wv" if "off" not in s else "Wf", s["m"], s["buf"][o:o + 15], 1, s["ref"][o], s["d"].get(o), a, -1,
+                   (s["kind"], o))
     ctx.count("boundary_walks", nwalk)
     ctx.note("longest_walk_instructions", longest)
     ctx.sample({"source": "T vendored table entry", "mode": table[0][0], "bytes": table[0][1].hex(),
@@ -308,12 +325,8 @@ def run(ctx):
         ctx.sample({"source": "W boundary walk (first steps)", "mode": allsw[0]["m"], "buffer": allsw[0]["buf"][:48].hex(),
                     "steps": [(o, a["al"], a["fmt"]) for (o, a) in sdec[0][:6]]}, cap=8)
     # ---------------------------------------------------------------- TLC judges
-    run_judge(ctx, bt, vendored=True)
-    lap("judge T")
-    run_judge(ctx, bw, vendored=False)
-    lap("judge W")
-    run_judge(ctx, bg, vendored=False)
-    lap("judge G")
+    run_judge(ctx, bg, nshards=8)
+    lap("judge (TLC)")
     ctx.exhaustive = False
 
 
@@ -328,9 +341,9 @@ def replay(ctx, live):
         lv = 1
         rl, rd = (r["lo"], r["do"]) if c07ref.agreed(r) else (-1, None)
     bt = Batch("replay")
-    bt.add(mode, b, lv, rl, rd, a, -1)
+    bt.add(case.get("source", "G"), mode, b, lv, rl, rd, a, -1)
     ctx.sample({"source": "replay", "mode": mode, "bytes": b.hex(), "amoco": a, "ref_len": rl})
-    run_judge(ctx, bt, vendored=False, nshards=1)
+    run_judge(ctx, bt, nshards=1)
 
 
 if __name__ == "__main__":
